@@ -161,3 +161,47 @@ def numpy_models():
     power.wants_interp = True
     out['ext:numpy.power'] = power
     return out
+
+
+# ------------------------------------------------------------------------------------------------------------
+# dateutil.relativedelta: relative (years, months, days) and absolute (day=) parts, documented semantics
+# ------------------------------------------------------------------------------------------------------------
+class RelDelta(PyModel):
+    def __init__(self, years=0, months=0, days=0, day=None, month=None, year=None, **other):
+        if other:
+            raise Unmodelled(f'relativedelta({sorted(other)})')
+        self.years, self.months, self.days, self.day, self.month, self.year = years, months, days, day, month, year
+
+    def __radd__(self, dt):
+        import calendar
+        import datetime as _dt
+        if not isinstance(dt, _dt.date):
+            raise Unmodelled('relativedelta added to a non-date')
+        year = (self.year if self.year is not None else dt.year) + self.years
+        month = (self.month if self.month is not None else dt.month)
+        total = (year * 12 + (month - 1)) + int(self.months)
+        year, month = divmod(total, 12)
+        month += 1
+        day = min(calendar.monthrange(year, month)[1], self.day if self.day is not None else dt.day)
+        try:
+            out = dt.replace(year=year, month=month, day=day)
+        except ValueError:
+            raise ExcRaised(Ref('builtin:ValueError'))
+        return out + _dt.timedelta(days=self.days)
+
+    __add__ = __radd__
+
+
+def date_models():
+    def relativedelta(*a, **k):
+        if a:
+            raise Unmodelled('relativedelta with positional arguments')
+        conv = {}
+        for kk, v in k.items():
+            if isinstance(v, Rec) and isinstance(v.f.get('value'), (int, float)) and str(v.f.get('cls', '')).endswith(':Number'):
+                v = v.f['value']        # dateutil reads numbers through int()/float(); the Number class supports both
+            if not isinstance(v, (int, float)) and v is not None:
+                raise Unmodelled('relativedelta with a symbolic component')
+            conv[kk] = int(v) if isinstance(v, float) and float(v).is_integer() else v
+        return RelDelta(**conv)
+    return {'ext:dateutil.relativedelta.relativedelta': relativedelta}
